@@ -14,6 +14,14 @@ NA = {
 PENDING = "check not built yet (implementation in progress); the design is in DESIGN.md section 4"
 
 CHECKS = {
+ "C15": dict(level="other",
+   text="All-paths typestate analysis: every one of the ~117 blob creation sites in src/ (blobCreate, blobResize, creator wrappers found by summary) is followed on every control-flow path of its function to blobClose (or to its owner), with use-after-close/double-close/overwrite detection; blobClose itself is proved structurally to wipe the whole page-rounded allocation (size expression matched against blobCreate's) before memFree, memWipe is proved to be a volatile store loop in the AST and in clang's optimised IR, and only mem.c/blob.c may touch the allocator. Structural necessary conditions of the property, decided exactly for the code shape; not a claim about which bytes are secret.",
+   design="4/C15", technique="all-paths typestate (disjunctive path engine over the CFG) + who-may-call + structural dominance + IR inspection",
+   note="Trusted: clang AST/IR, the path engine, free()/realloc() being the only release points; secrets kept in caller memory or fixed-size stack locals are outside the statement (heap blocks). blobResize call sites are an audited list (R15.5)."),
+ "C18": dict(level="other",
+   text="Lockset analysis over all paths of every function of rng.c/util.c/tm.c: shared file-scope state is accessed only with the unit's mutex held, helper functions that rely on the caller's lock are checked at each call site, every return is reached with the mutex released, no access relies on a test made in an earlier critical section, init-only variables are read only after mtCallOnce; mtCallOnce's protocol shape (initialiser only after a winning CAS, completion published, no return before done was observed, trigger touched only atomically) and the atomic/mutex primitives are checked structurally. Data-race freedom and exactly-once follow from these for the pthread/__sync build; liveness is not decided.",
+   design="4/C18", technique="lockset / typestate dataflow on all CFG paths + protocol-shape rules",
+   note="Trusted: pthread mutexes and __sync builtins (full barriers), OS_UNIX branch only; once-initialisers and at-exit handlers are exempt from the lockset rule by construction; callers hold a reference between rngCreate and rngClose."),
  "C20": dict(level="model_checking",
    text="Exhaustive: the complete transition table of the password automaton is extracted from the AST of btokPwdTransition (bit-field widths and enum values included) and every clause of the property is checked by breadth-first search on product automata over all states reachable from every persistent PIN state; a violation is reported with the shortest event sequence.",
    design="4/C20", technique="finite-model extraction from the AST + exhaustive graph search",
